@@ -146,6 +146,84 @@ def resampleS (order : Nat) (step : Rat) : Stage α Unit RsSt :=
          (⟨0, r.2⟩, List.replicate r.1 ()),
    fun _ => []⟩
 
+/-! ### `resample` with a TIME-VARYING step: two counted sources (signal and step stream)
+
+    step = iter(old / new)                      -- nothing is read here
+    data.extend(sig.take(rint(threshold)));  idx = int(threshold)
+    while True:
+      yield …                                   -- output #j needs the steps #0 .. #j-1 only
+      idx += next(step)                         -- read AFTER the yield: when #j+1 is demanded
+      while idx > threshold:  data.append(next(isig));  idx -= 1
+
+  Seen from the STEP source this is a `Stage` (one output per step value, one output up front);
+  every output carries the number of SIGNAL items pulled for it, so the generator protocol
+  (`Stage.pulls`) counts the step stream and the outputs count the signal: both counters of the
+  two-source machine are observable.  A variant that fetches the step in the loop header
+  (`for delta in steps: yield …`) is `rsStepEagerS`: same outputs, one step value too early.
+-/
+
+/-- `while idx > thr: data.append(next(isig)); idx -= 1` — (signal items read, idx afterwards) -/
+def rsCatchUp (thr : Rat) : Nat → Rat → Nat × Rat
+  | 0, idx => (0, idx)
+  | fuel + 1, idx =>
+    if idx > thr then
+      let r := rsCatchUp thr fuel (idx - 1)
+      (r.1 + 1, r.2)
+    else (0, idx)
+
+def rsCatchFuel (thr idx : Rat) : Nat := (idx - thr).ceil.toNat
+
+def rsThrOf (order : Nat) : Rat := ((order + 1 : Nat) : Rat) / 2
+
+/-- step-source view; input = step values, output = signal items pulled for that output -/
+def rsStepS (order : Nat) : Stage Rat Nat Rat :=
+  ⟨(((order + 1) / 2 : Nat) : Rat), [rsPrefill order],
+   fun idx delta =>
+     let idx' := idx + delta
+     let r := rsCatchUp (rsThrOf order) (rsCatchFuel (rsThrOf order) idx') idx'
+     (r.2, [r.1]),
+   fun _ => []⟩
+
+/-- the loop with the step fetched in its header (`for delta in steps:`): NOT the library's
+    discipline — kept as the counter-model the theorems and the tie distinguish from `rsStepS` -/
+def rsStepEagerS (order : Nat) : Stage Rat Nat (Rat × Nat) :=
+  ⟨((((order + 1) / 2 : Nat) : Rat), rsPrefill order), [],
+   fun st delta =>
+     let idx' := st.1 + delta
+     let r := rsCatchUp (rsThrOf order) (rsCatchFuel (rsThrOf order) idx') idx'
+     ((r.2, r.1), [st.2]),
+   fun _ => []⟩
+
+/-- signal-source view of a stage whose `i`-th output is yielded after `gaps[i]` further source
+    items (`read gaps[i] items; yield`); beyond the list: one item per output -/
+def stripZeros : List Nat → Nat × List Nat
+  | [] => (0, [])
+  | g :: gs => if g = 0 then ((stripZeros gs).1 + 1, (stripZeros gs).2) else (0, g :: gs)
+
+def gapS (gaps : List Nat) : Stage α Unit (List Nat) :=
+  ⟨(stripZeros gaps).2, List.replicate (stripZeros gaps).1 (),
+   fun gs _ => match gs with
+     | [] => ([], [()])
+     | g :: rest =>
+       if g ≤ 1 then ((stripZeros rest).2, List.replicate ((stripZeros rest).1 + 1) ())
+       else ((g - 1) :: rest, []),
+   fun _ => []⟩
+
+/-- `resample(sig, old=<stream>, new=<stream>)` seen from the signal source: the reads in front
+    of every output are those of the two-source machine run on the given step values -/
+def resampleTVS (order : Nat) (steps : List Rat) : Stage α Unit (List Nat) :=
+  gapS ((rsStepS order).emit steps)
+
+/-- running totals `acc + c₀, acc + c₀ + c₁, …` -/
+def cumSum : Nat → List Nat → List Nat
+  | _, [] => []
+  | acc, c :: cs => (acc + c) :: cumSum (acc + c) cs
+
+/-- both counters of the two-source machine after each of `K` calls of `next()`:
+    (signal items pulled, step values pulled) -/
+def rsTwoSource (order : Nat) (steps : List Rat) (K : Nat) : List (Nat × Nat) :=
+  List.zip (cumSum 0 ((rsStepS order).outs steps K)) ((rsStepS order).pulls steps K)
+
 /-! ### `Streamix` seen from ONE event's data source (timing of several events is C16)
 
     count = 0.5
@@ -195,6 +273,7 @@ inductive Desc where
   | par (n : Nat)                -- thub'ed input feeding n sample-wise branches, summed
   | cascade (n : Nat)            -- n sample-wise filters in series
   | resample (order : Nat) (step : Rat)
+  | resampleTV (order : Nat) (steps : List Rat)   -- time-varying step (values of the step stream)
   | smix (delta : Rat)
   deriving Repr
 
@@ -234,6 +313,7 @@ def build : Desc → AnyStage
   | .par n => parN n
   | .cascade n => cascadeN n
   | .resample order step => ⟨_, resampleS order step⟩
+  | .resampleTV order steps => ⟨_, resampleTVS order steps⟩
   | .smix delta => ⟨_, smixS delta ()⟩
 
 def buildChain : List Desc → AnyStage
